@@ -627,9 +627,10 @@ func (g *Gen) foreignBlock(fork bool) {
 			if g.r.Chance(2, 3) && s.admissible(w.Txs[ti], h) == "" {
 				s.apply(w.Txs[ti])
 				ids = append(ids, fmt.Sprint(ti))
-			} else {
-				break
+			} else if g.r.Chance(1, 2) {
+				break // a prefix of the pool
 			}
+			// else: any subset of the pool that is valid on the base (a pending reader may be left behind its overwriter)
 		}
 	}
 	// transactions that are already on the main chain above the fork point, if they still apply on this base:
@@ -696,7 +697,45 @@ func (g *Gen) badBlock() {
 	if base < 0 {
 		return
 	}
-	switch g.r.Intn(5) {
+	switch g.r.Intn(6) {
+	case 5: // a pending transaction without the pending transaction it depends on (spends its output / reads its write)
+		st := e.stateTip()
+		if st != base {
+			return
+		}
+		inPool := map[int]bool{}
+		for _, ti := range e.pool {
+			inPool[ti] = true
+		}
+		child := -1
+		for _, ti := range e.pool {
+			t := w.Txs[ti]
+			for _, in := range t.Ins {
+				if inPool[in.Tx] {
+					child = ti
+				}
+			}
+			for _, ki := range t.KIn {
+				if ki.VTx >= 0 && inPool[ki.VTx] {
+					child = ti
+				}
+			}
+		}
+		if child < 0 {
+			return
+		}
+		bi := len(w.Blocks)
+		g.emit(fmt.Sprintf("blk %d pre=%d prop=m1 aa=%d aw=%d txs=%d", bi, base, w.Award, len(w.Txs), child))
+		if g.emit(fmt.Sprintf("confirm %d", bi)) != "fail" {
+			g.confirmed[bi] = true
+			a := g.emit(fmt.Sprintf("play %d", bi))
+			e.out.Count("badblock:child-without-pending-parent:play-" + a)
+			if a == "ok" {
+				g.emit(fmt.Sprintf("walk %d", bi))
+			} else {
+				g.syncState()
+			}
+		}
 	case 4: // two transactions superseding the same key version inside one block (delete + write, or write + write)
 		k := w.Keys[g.r.Intn(len(w.Keys))]
 		cur := w.SpecAt(base)
